@@ -108,6 +108,26 @@ def check_getters(acc, y, m, d, mods, with_datetime=False):
                                                         "dt": with_datetime}, got[k], exp[k])
 
 
+AWARE_ZONES = ("Asia/Tokyo", "Pacific/Auckland", "America/Los_Angeles", "Asia/Kolkata")
+
+
+def check_getters_obj(acc, o, case):
+    y, m, d = o.year, o.month, o.day
+    nd = dt_.date(y, m, d)
+    mc = calendar.monthcalendar(y, m)
+    exp = {"day_of_week": nd.weekday(), "day_of_year": nd.timetuple().tm_yday, "week_of_year": nd.isocalendar()[1],
+           "week_of_month": next(i for i, row in enumerate(mc) if d in row) + 1,
+           "days_in_month": calendar.monthrange(y, m)[1], "quarter": (m + 2) // 3, "is_leap_year": calendar.isleap(y),
+           "is_long_year": dt_.date(y, 12, 28).isocalendar()[1] == 53}
+    got = {"day_of_week": int(o.day_of_week), "day_of_year": o.day_of_year, "week_of_year": o.week_of_year,
+           "week_of_month": o.week_of_month, "days_in_month": o.days_in_month, "quarter": o.quarter,
+           "is_leap_year": o.is_leap_year(), "is_long_year": o.is_long_year()}
+    acc.c["evaluations"] += 8
+    for k in exp:
+        if got[k] != exp[k]:
+            acc.mismatch(f"getter.{k}", "DateTime.aware", dict(case, local=[y, m, d]), got[k], exp[k])
+
+
 def expected_local_time(t, off):
     days, sod = divmod(t + off, DAY)
     y, m, d = calref.civil_from_days(days)
@@ -172,6 +192,20 @@ def run_shard(shard):
                         acc.c["transitions"] += 1
                     wd = wd % 7 + 1
         acc.sample({"kind": "years", "range": [shard["y0"], shard["y1"]]})
+    elif kind == "aware_getters":
+        # the getters on aware DateTimes: the SAME instant shown in several zones, one after the other in one process
+        # (the values are equal and hash-equal across zones, their local dates are not)
+        pendulum = mods[0]
+        zones = [pendulum.UTC] + [pendulum.timezone(z) for z in AWARE_ZONES]
+        for h in range(shard["h0"], shard["h1"], shard["step"]):
+            u = pendulum.DateTime(1970, 1, 1, tzinfo=pendulum.UTC).add(hours=h, minutes=30)
+            acc.c["states"] += 1
+            for tz in zones:
+                x = u.in_timezone(tz)
+                check_getters_obj(acc, x, {"kind": "aware", "h": h, "tz": tz.name})
+                acc.c["transitions"] += 1
+        acc.c["nontrivial"] += 1
+        acc.sample({"kind": "aware_getters", "hours_since_epoch": [shard["h0"], shard["h1"]], "zones": ["UTC"] + list(AWARE_ZONES)})
     elif kind == "lt_days":
         step = shard["step"]
         for n in range(shard["d0"], shard["d1"], step):
@@ -218,6 +252,11 @@ def replay_case(case, acc):
         check_date_fn(acc, case["y"], case["m"], case["d"], mods)
     elif k == "getters":
         check_getters(acc, case["y"], case["m"], case["d"], mods, with_datetime=True)
+    elif k == "aware":
+        pendulum = mods[0]
+        u = pendulum.DateTime(1970, 1, 1, tzinfo=pendulum.UTC).add(hours=case["h"], minutes=30)
+        for tz in [pendulum.UTC] + [pendulum.timezone(z) for z in AWARE_ZONES]:     # the same order as the shard
+            check_getters_obj(acc, u.in_timezone(tz), {"kind": "aware", "h": case["h"], "tz": tz.name})
     elif k == "lt":
         check_local_time(acc, case["t"], case["off"], case["us"], mods)
     elif k == "ltf":
@@ -264,6 +303,10 @@ def plan(tier, seed):
     for y in (1600, 1900, 2000, 2024):
         shards.append({"kind": "lt_sweep", "day": calref.days_from_civil(y, 2, 28) + 1, "sstep": 11,
                        "offsets": [0, 1, -1, 86399, -86399]})
+    # aware receivers: every 5th (thorough: every) hour of 2023-2025 (+ one seed-rotated year) shown in 5 zones
+    for y in (2023, 2024, 2025, 1972 + (seed * 11) % 120):
+        h0 = (calref.days_from_civil(y, 1, 1) - calref.days_from_civil(1970, 1, 1)) * 24
+        shards.append({"kind": "aware_getters", "h0": h0, "h1": h0 + 366 * 24, "step": 1 if thorough else 5})
     return [({"ext": 1, "tz": "sys"}, shards), ({"ext": 0, "tz": "sys"}, shards)]
 
 
